@@ -128,8 +128,8 @@ fn main() {
                 "rate": *pick(&mut rng, &probs), "sigma": *pick(&mut rng, &sigmas), "mu": *pick(&mut rng, &[0.0, 2.0]),
                 "vol": rng.gen_range(1..50u32), "tick_lo": rng.gen_range(1..40u32), "tick_span": rng.gen_range(1..30u32),
                 "vol_lo": rng.gen_range(1..20u32), "vol_span": rng.gen_range(1..20u32), "id0": rng.gen_range(0..50u32),
-                "decay": decay, "order_ratio": *pick(&mut rng, &[0.0, 1.0, 2.0]),
-                "demand_mult": *pick(&mut rng, &[1.0, 2.0]),
+                "decay": decay, "order_ratio": *pick(&mut rng, &[0.0, 0.5, 1.0, 2.0]),
+                "demand_mult": *pick(&mut rng, &[1.0, 2.0, 4.0]),
                 "scripted": rng.gen::<f64>() < script_rate,
                 "script": (0..rng.gen_range(1..40)).map(|_| *pick(&mut rng, &[0u64, u64::MAX, 1u64 << 63, (1u64 << 40) - 1])).collect::<Vec<u64>>(),
                 "level": 2000 + 10 * rng.gen_range(0..50u32),
@@ -189,7 +189,8 @@ fn main() {
             "p_limit": prob_class(c["p_limit"].as_f64().unwrap()), "p_market": prob_class(c["p_market"].as_f64().unwrap()),
             "p_cancel": prob_class(c["p_cancel"].as_f64().unwrap()), "rate": prob_class(c["rate"].as_f64().unwrap()),
             "vol": c["vol"], "tick_lo": tick_lo, "tick_hi": tick_hi, "vol_lo": vol_lo, "vol_hi": vol_hi,
-            "decay4": (c["decay"].as_f64().unwrap() * 4.0) as u64, "order_ratio_one": c["order_ratio"].as_f64().unwrap() >= 1.0,
+            "decay4": (c["decay"].as_f64().unwrap() * 4.0) as u64, // at saturated demand the documented limit-order probability is order_ratio * demand / n = order_ratio * demand_mult
+            "limit_certain": c["order_ratio"].as_f64().unwrap() * (if saturated { c["demand_mult"].as_f64().unwrap() } else { 1.0 }) >= 1.0,
             "order_ratio_zero": c["order_ratio"].as_f64().unwrap() <= 0.0,
             "saturated": saturated, "controlled": controlled, "reflected": reflected, "mirror": mirror, "cfg": c});
         writeln!(f, "{}", ev).unwrap();
